@@ -10,6 +10,7 @@ import os
 import re
 
 import hashlib
+import time
 
 from vcheck import BUILD, COQ, ROOT, coq_bytes, coq_list
 
@@ -98,7 +99,6 @@ def build_extracted(ctx):
 
 
 def run(ctx):
-    import time
     ph = ctx.extra.setdefault("phase_s", {})
     t0 = time.time()
     ctx.coq_props(extra_targets=["Extract/quote/QuoteExtract.vo"])
@@ -136,7 +136,10 @@ def run(ctx):
                 "thorough: all 65536) + random strings of 1..16 tokens biased to shell metacharacters, reserved words, multi-byte "
                 "runes (incl. U+FFFD, U+FFFE, non-characters, C1 controls, planes 1..16), invalid UTF-8 (lone lead/continuation "
                 "bytes, overlongs, surrogates, > U+10FFFF), control bytes, hex digits (mksh re-quoting), occasional NUL; each for "
-                "the five variants; non-trivial = distinct string that some variant has to quote or refuse")
+                "the five variants; non-trivial = distinct string that some variant has to quote or refuse. Unquote legs: quoted "
+                "texts = Quote outputs with 0..2 byte mutations, and assemblies of 1..3 parts (bare run, '..', \"..\", $'..') over "
+                "an alphabet of escapes, quotes, $ ` backslash, hex/octal digits, multi-byte and invalid bytes; non-trivial = text that "
+                "some variant's parser accepts as one inert word")
     # ---- search verdicts (computed in the harness against the real code / real shells)
     for r in rows:
         ctx.count(1, [r["s"]] if r.get("nt") else [])
@@ -211,6 +214,70 @@ def run(ctx):
                 krt.append({"s_hex": part[i]["s"]})
     ctx.leg("code:syntax.Quote vs Syntax/Quote.v quote + model round trip (vm_compute in kernel, sample)", total * 5, kmism + krt)
     ph["kernel"] = round(time.time() - t0, 1)
+    # ---- unquote legs: the model's unquote vs syntax.Parser + expand.Literal (five variants) and vs bash / dash,
+    #      on arbitrary quoted texts (mutated Quote outputs and random '..' ".." $'..' assemblies)
+    t0 = time.time()
+    nu = 3000 if ctx.tier == "quick" else 60000
+    rcu, urows, erru = ctx.jsonl([binp, "unq", "-seed", str(ctx.seed), "-n", str(nu)], timeout=1200)
+    urows = [r for r in urows if "uq" in r]
+    if rcu != 0 or not urows:
+        ctx.broken.append(("harness-run", "c13 unq failed rc=%d %s" % (rcu, erru[-600:])))
+        return
+    uf = os.path.join(BUILD, "c13_ucases_%d.txt" % os.getpid())
+    open(uf, "w").write("".join(" ".join([r["uq"]] + r["g"] + [r["bash"], r["dash"]]) + "\n" for r in urows))
+    rcm, outu, errm = ctx.run([mbin, "-unq", uf], timeout=1200)
+    os.remove(uf)
+    msome = re.search(r"^some (\d+)$", outu, re.M)
+    if rcm != 0 or ("done %d" % len(urows)) not in outu or not msome:
+        ctx.broken.append(("correspondence:unquote-eval", "extracted model driver (-unq) failed rc=%d %s" % (rcm, (outu + errm)[-600:])))
+        return
+    def urow(i, li=None):
+        r = urows[int(i)]
+        d = {"q_hex": r["uq"], "go": r["g"], "bash": r["bash"], "dash": r["dash"]}
+        if li is not None:
+            d["variant"] = LANGNAMES[int(li)]
+        return d
+    um = [urow(i, li) for i, li in re.findall(r"^U (\d+) (-?\d+)$", outu, re.M)]
+    bm = [urow(i) for i in re.findall(r"^B (\d+)$", outu, re.M)]
+    dm = [urow(i) for i in re.findall(r"^D (\d+)$", outu, re.M)]
+    nb = sum(1 for r in urows if r["bash"] != "?")
+    nd = sum(1 for r in urows if r["dash"] != "?")
+    ctx.leg("code:Syntax/Quote.v unquote = Some t  =>  syntax.Parser + expand.Literal give the one inert word t (5 variants, extracted OCaml)",
+            int(msome.group(1)), um, note="%d quoted texts; compared whenever the conservative model answers Some" % len(urows))
+    ctx.leg("oracle:unquote LBash q = Some t => bash printf gives t", nb, bm)
+    ctx.leg("oracle:unquote LPosix q = Some t => dash printf gives t", nd, dm)
+    for r in urows:
+        ctx.count(1, ["u" + r["uq"]] if any(g.startswith("W") for g in r["g"]) else [])
+    # in-kernel cross-check of unquote on a sample
+    ks = [r for r in urows if all(g != "?" for g in r["g"])][:250]
+    def coq_opt(g):
+        return "(Some %s)" % coq_bytes(g[2:]) if g.startswith("W:") else "None"
+    items = ["(%s,%s)" % (coq_bytes(r["uq"]), coq_list([coq_opt(g) for g in r["g"]])) for r in ks]
+    text = """From Verif Require Import Base.Str Base.Utf8 Syntax.Quote.
+Open Scope N_scope.
+Definition langs := [LBash; LPosix; LMksh; LBats; LZsh].
+Definition ok1 (l : lang) (q : str) (g : option str) : bool :=
+  match unquote l q, g with Some t, Some t' => str_eqb t t' | Some _, None => false | None, _ => true end.
+Fixpoint okall (q : str) (ls : list lang) (gs : list (option str)) : bool :=
+  match ls, gs with [], [] => true | l :: ls', g :: gs' => ok1 l q g && okall q ls' gs' | _, _ => false end.
+Fixpoint bad (i : nat) (cs : list (str * list (option str))) : list nat :=
+  match cs with [] => [] | (q, gs) :: rest => if okall q langs gs then bad (S i) rest else i :: bad (S i) rest end.
+Definition cases : list (str * list (option str)) := %s.
+Definition U := Eval vm_compute in bad 0 cases.
+Print U.
+""" % coq_list(items)
+    ok, out = ctx.coq_cases("c13_%d_u" % os.getpid(), text, timeout=900)
+    try:
+        os.remove(os.path.join(ROOT, "coq", "Cases", "c13_%d_u.v" % os.getpid()))
+    except OSError:
+        pass
+    m = re.search(r"U\s*=\s*(\[[^\]]*\])", out)
+    if not ok or not m:
+        ctx.broken.append(("correspondence:unquote-eval", "coqc on generated unquote cases failed: " + out[-800:]))
+        return
+    ctx.leg("code:unquote vs syntax.Parser + expand.Literal (vm_compute in kernel, sample)", len(ks) * 5,
+            [urow(urows.index(ks[int(x)])) for x in re.findall(r"\d+", m.group(1))])
+    ph["unquote"] = round(time.time() - t0, 1)
     ctx.assumptions += ["is_print := unicode.IsPrint table dumped from the Go runtime on this run (Section variable in the model; "
                         "the theorems hold for every is_print)",
                         "no mksh/zsh binary here: for LangMirBSDKorn/LangZsh/LangBats the expansion oracle is syntax.Parser + expand only",
